@@ -1317,8 +1317,32 @@ func main() {
 			c.Hints, c.Ms, c.Class = h, ms, append(class, class2...)
 			c.Ctx = &Ctx{FromNs: h.Start * 1000000, ToNs: h.End * 1000000, Type: 2, Cluster: r.Intn(4) == 0}
 			c.Sorted = r.Intn(2) == 0
+			downDB := false
+			if rs := hx.Rand(f.Seed*15485863 + int64(i)); rs.Intn(6) == 0 { // own stream: hints of the down-sampled path, matchers that select
+				h.Start -= h.Start % 15000
+				h.End = h.Start + int64(1+rs.Intn(40))*15000 + int64(rs.Intn(2)*rs.Intn(15000))
+				h.Step = []int64{15000, 30000, 60000, 300000}[rs.Intn(4)]
+				h.Range = []int64{0, 15000, 30000, 60000, 300000}[rs.Intn(5)]
+				h.Func = []string{"", "sum", "avg", "rate", "increase", "avg_over_time", "min_over_time", "max_over_time", "sum_over_time",
+					"count_over_time", "last_over_time", "present_over_time", "absent_over_time", "abs", "delta"}[rs.Intn(15)]
+				c.Ctx.FromNs, c.Ctx.ToNs = h.Start*1000000, h.End*1000000
+				c.Class = append(c.Class, "down-db")
+				downDB = true
+			}
 			genRows(r, &c)
 			c.DB = genDB(r, h)
+			if downDB && len(c.DB.Series) > 0 {
+				rs := hx.Rand(f.Seed*32452843 + int64(i))
+				t := c.DB.Series[rs.Intn(len(c.DB.Series))]
+				for _, kv := range t.Labels {
+					if kv[0] == "__name__" {
+						c.Ms = []Matcher{{Name: "__name__", Op: []string{"=", "=~"}[rs.Intn(2)], Val: kv[1]}}
+					}
+				}
+				if rs.Intn(2) == 0 {
+					c.Ms = append(c.Ms, genAbsentMulti(rs, c.DB)[1:]...)
+				}
+			}
 			if rs := hx.Rand(f.Seed*104729 + int64(i)); rs.Intn(4) == 0 { // own stream: the other cases of the seed stay as they were
 				c.Ms = genAbsentMulti(rs, c.DB)
 				c.Class = append(c.Class, "absent-multi")
